@@ -19,7 +19,7 @@ from vlib.verdict import Case
 PROPERTY = 'C17'
 MANIFEST = {
  'level_text': 'Lean 4 theorems about a model of utils.file.AtomicFile over an explicit file-system state with process-side write buffers (every primitive call is one step; a crash keeps the disk and drops the buffers): for every old content, every chunking of the new content, every buffering schedule, every tmp/backup configuration and every crash index the target is the old or the new version (crash_atomic), also along arbitrary histories of completed / aborted / killed flushes (history_versions) and, file by file, when several files are flushed in a row by world.flush() (multi_flush_atomic, files_independent); a completed flush installs exactly the new content; rollback never touches the target; temp and backup names differ from the target name; generated inventories show that the only AtomicFile call sites of ircdb/registry/dbi are the modelled callers and that nothing else in src/ opens a file for writing except a fixed list of record-level / journal writers (atomic_sites_cover, direct_writers_known), of which dbi.FlatfileMapping.add/remove are modelled separately (flat_add_states, flat_add_atomic: below the counter line the file holds the old or the new records at every crash index; flat_remove_atomic) and FlatfileMapping.set now is an AtomicFile rewrite (flat_set_atomic). The model is tied to /repo by extraction (call order and tests of AtomicFile.close/rollback/__init__, defaults, every call site in ircdb/registry/dbi) and by a differential run in which the real flush code of the six callers is killed (fork + os._exit) before and after every file-system call and the bytes found on disk are compared with the model state at that index; the property statement (bytes are old or new, the real loader accepts them, only the target is read) is evaluated on the implementation at every crash point.',
- 'level_note': 'Trusted: Lean kernel; axioms propext/Classical.choice/Quot.sound only; harness/extractors/atomicfile.py; the CrashBox wrappers (a file-system call the wrappers do not see is not a crash point); POSIX semantics assumed by the model: rename within one file system is atomic, open(p,"a") does not change existing content, process death loses exactly the user-space buffers (no power loss, no fsync reasoning). Modelled and proved: AtomicFile.__init__/write/writelines/close/rollback/__del__, shutil.copy (backup) and shutil.move call sequences, name construction (os.path.join/basename). Callers are exercised (their write patterns are arbitrary chunk lists in the model): users, channels, networks, ignores, a synthetic registry, the full supybot registry (registry.close as scripts/supybot and Config.export call it), FlatfileMapping.vacuum, and world.flush() over five files incl. userdata.conf; loaders are exercised only. Not modelled, and why: utils.transaction is imported by utils/__init__ but used nowhere (no Transaction(...) call site in src/ or plugins/); dbi.DirMapping is not offered by dbi.Mappings (unreachable; its crash run is in the evidence for information); cdb (the optional cdb mapping, not selected by any bundled plugin) rebuilds its file through Maker, an AtomicFile in wb mode, and replays an append-only journal on open — inventoried only.',
+ 'level_note': 'Trusted: Lean kernel; axioms propext/Classical.choice/Quot.sound only; harness/extractors/atomicfile.py; the CrashBox wrappers (a file-system call the wrappers do not see is not a crash point); POSIX semantics assumed by the model: rename within one file system is atomic, open(p,"a") does not change existing content, process death loses exactly the user-space buffers (no power loss, no fsync reasoning). Modelled and proved: AtomicFile.__init__/write/writelines/close/rollback/__del__, shutil.copy (backup) and shutil.move call sequences, name construction (os.path.join/basename). Callers are exercised (their write patterns are arbitrary chunk lists in the model): users, channels, networks, ignores, a synthetic registry, the full supybot registry (registry.close as scripts/supybot and Config.export call it), FlatfileMapping.vacuum, and world.flush() over five files incl. userdata.conf; loaders are exercised only. Not modelled, and why: utils.transaction is imported by utils/__init__ but used nowhere (no Transaction(...) call site in src/ or plugins/); dbi.DirMapping is not offered by dbi.Mappings (unreachable; its crash run is in the evidence for information); cdb (the optional cdb mapping, not selected by any bundled plugin) is not usable on this tree at all: reading back a stored key raises KeyError (Reader.find), so db[k] after db[k] = v fails; its design (journal appended and flushed per modification, constant database rebuilt through Maker, an AtomicFile in wb mode, journal replayed on open) is inventoried only.',
  'technique': 'Lean 4 proof (invariants over call sequences, all crash indices) + source extraction + differential crash injection with real process death',
  'design_ref': 'DESIGN.md §6 C17',
 }
@@ -1095,51 +1095,6 @@ def explore_inplace(b, root, r):
                     'example_intermediate': inter[0] if inter else None, 'old_reads_as': d_old, 'new_reads_as': d_new})
     return out
 
-def explore_cdb(b, root):
-    """cdb.ReaderWriter (the optional 'cdb' mapping): every modification is appended to a journal and flushed;
-    flush()/close() rebuild the constant database through Maker (an AtomicFile) and then remove the journal; open
-    replays a journal it finds.  Kill flush() at every file-system call and reopen: the mapping read back must be
-    the complete new mapping (everything journalled is durable), whatever was or was not rebuilt.  Not modelled."""
-    from supybot import cdb
-    sc = Scenario(root, 'flat', 'cdb', None, None, CONFIGS[1])
-    path = os.path.join(root, 'conf', 'map.cdb')
-    def seed():
-        db = cdb.open_db(path, 'c')
-        db['a'] = '1'; db['b'] = '2'; db['c'] = '3'
-        db.close()
-    def modify_then(flush):
-        db = cdb.open_db(path, 'c')
-        db['b'] = 'two'; db['d'] = '4'        # (del db[key] raises KeyError for stored keys on this tree: not exercised)
-        if flush:
-            db.flush()
-        return db
-    def dump():
-        db = cdb.open_db(path, 'c')
-        out = sorted((k, db[k]) for k in db.keys())
-        return out
-    want = [['a', '1'], ['b', 'two'], ['c', '3'], ['d', '4']]
-    def fresh():
-        reset_dir(sc, None, plain=True)
-        in_child(seed)
-    fresh()
-    code, tr = in_child(lambda: run_flush(b, sc, lambda: modify_then(True), None, False))
-    npts = (tr or {}).get('points', 0)
-    bad = []
-    for p in range(npts + 1):
-        fresh()
-        in_child(lambda: run_flush(b, sc, lambda: modify_then(True), p, False))
-        code, d = in_child(dump)
-        if code != 0 or d is None:
-            bad.append({'crash_point': p, 'reopen': 'raised'})
-        else:
-            # the three modifications are journalled one after the other: any prefix of them may be durable
-            # before the flush proper starts, all of them once flush() has been entered
-            allowed = [[['a', '1'], ['b', '2'], ['c', '3']], [['a', '1'], ['b', 'two'], ['c', '3']], want]
-            if d not in allowed:
-                bad.append({'crash_point': p, 'reads_as': d})
-    return {'writer': 'cdb.ReaderWriter (journal + Maker)', 'calls': [e['k'] for e in (tr or {}).get('events', [])],
-            'crash_points': npts + 1, 'bad_states': bad}
-
 def big_scenarios(root, r, thorough):
     out = []
     for kind in BIG_KINDS:
@@ -1277,7 +1232,6 @@ def extra_cases(ctx, thorough):
                 for c, line in explore_world(b, callers, root, r, cfg, None if thorough else (r, 110)):
                     cases.append(c); lines.append(line); pend.append((c, lambda o: o.split(';')[0]))
         inplace = explore_inplace(b, root, r)
-        inplace.append(explore_cdb(b, root))
     finally:
         (b.utils_file.AtomicFile.default.tmpDir, b.utils_file.AtomicFile.default.backupDir,
          b.utils_file.AtomicFile.default.allowEmptyOverwrite, b.utils_file.AtomicFile.default.makeBackupIfSmaller) = saved
